@@ -61,6 +61,19 @@ def apply_impl(ub, op):
     if op[0] == "set":
         # the caller may hand over a tuple, a list or an array, and may reuse its own buffer afterwards
         kind = int(abs(op[2][0]) * 1000) % 3
+        route = int(abs(op[2][1]) * 1000) % 5
+        attr = "reference" if op[1].startswith("n_") else "surface"
+        in_hkl = op[1].endswith("hkl")
+        if route == 3:
+            # the documented attribute route: a ReferenceVector object with the frame flag as any truthy / falsy value
+            from diffcalc.ub.calc import ReferenceVector
+            flag = [in_hkl, np.bool_(in_hkl), int(in_hkl), np.array([in_hkl])[0]][int(abs(op[2][2]) * 1000) % 4]
+            setattr(ub, attr, ReferenceVector(tuple(op[2]), flag))
+            return
+        if route == 4 and bool(getattr(ub, attr).rlv) == in_hkl:
+            # in-place edit of the vector object the calculator already holds (same frame)
+            getattr(ub, attr).set_array(np.array([list(op[2])], float).T)
+            return
         buf = tuple(op[2]) if kind == 0 else list(op[2]) if kind == 1 else np.array(op[2], float)
         setattr(ub, op[1], buf)
         if kind != 0:
@@ -173,6 +186,8 @@ def oracle(ctx, widen=1):
     unit = lambda v: np.asarray(v, float) / np.linalg.norm(v)
     for it in range(n):
         rng = ctx.rng
+        bystander = UBCalculation("bystander")        # a second calculator alive at the same time, never touched
+        by0 = getters(bystander)
         ub = UBCalculation("t")
         ops = gen_history(rng, 8)
         last = {"reference": None, "surface": None}
@@ -180,6 +195,9 @@ def oracle(ctx, widen=1):
         for oi, op in enumerate(ops):
             try:
                 apply_impl(ub, op)
+                if getters(bystander) != by0:
+                    bad = f"an operation on one calculator changed the vectors of another, untouched calculator: {by0} -> {getters(bystander)}"
+                    break
                 if op[0] == "set":
                     last["reference" if op[1].startswith("n_") else "surface"] = (op[1], op[2])
                 UB = None if ub.UB is None else np.asarray(ub.UB, float)
